@@ -12,7 +12,7 @@ import ast
 from ..core import AnalysisError
 from ..flow import dump
 from ..model import walk_no_nested
-from ..effects import Effects
+from ..effects import Effects, dead_under_defaults
 from .c01 import parse_loop
 
 # one named construct + reason each; an entry that is never met is an error
@@ -80,6 +80,11 @@ def run(ctx):
                 continue
             for o in d.values():
                 r = o.root()
+                # the property parses, serialises and walks with the documented default call
+                # (`to_ical()`, `walk()`): code that only runs for an optional argument the
+                # default call does not pass is outside it
+                if label in ("to_ical", "walk") and o.func is f and dead_under_defaults(_NOARG_CALL, f, o.node):
+                    continue
                 n_bad += 1
                 ctx.fail("C04/ESCAPE", f"{label} escapes {e} @ {r.func.qualname}: {r.what[:60]}",
                          f"Component.{label} may let {e} escape ({r.what} in {r.func.qualname}); "
@@ -110,6 +115,9 @@ def run(ctx):
 
 
 # ---------------------------------------------------------------------------
+_NOARG_CALL = ast.parse("self.m()").body[0].value
+
+
 def _arity(ctx):
     from .c11 import tzid_forward_names
     m = ctx.model
@@ -171,12 +179,38 @@ def _lookup(ctx, eff):
     esc = eff.escapes(f)
     ctx.check(not esc, "C04/LOOKUP", "TZP.timezone never raises",
               f"TZP.timezone may raise {sorted(esc)}", f.loc(), detail="no escapes")
-    # vDatetime.from_ical resolves the TZID string through tzp.timezone (which cannot raise)
+    # vDatetime.from_ical resolves a TZID string through tzp.timezone (which cannot raise) and
+    # nowhere else - decided by interpreting the decoder (E7) with a recording provider
+    from ..absint import Interp, ClassVal, Native, TZ, AbsRaise, Unsupported
     vd = m.own_method("prop.vDatetime.from_ical")
-    calls = [c for c in ast.walk(vd.node) if isinstance(c, ast.Call) and isinstance(c.func, ast.Attribute)
-             and c.func.attr == "timezone" and isinstance(c.func.value, ast.Name) and c.func.value.id == "tzp"]
-    ctx.check(len(calls) == 1, "C04/LOOKUP", "vDatetime.from_ical looks the TZID up via tzp.timezone",
-              "the TZID string must be resolved through tzp.timezone", vd.loc(), detail="tzp.timezone(timezone)")
+    looked = []
+
+    class Rec(Interp):
+        def _native_obj_attr(self, o, name):
+            if o.name == "tzp" and name == "timezone":
+                def tz(i, a, k):
+                    looked.append(self._str(a[0]))
+                    return TZ("zone", self._str(a[0]), self.provider) if self._str(a[0]) == "Europe/Berlin" else None
+                return Native("tzp.timezone", tz)
+            return super()._native_obj_attr(o, name)
+    it = Rec(m)
+    res = {}
+    for tzid in ("Europe/Berlin", "Unknown/Zone"):
+        try:
+            res[tzid] = it.call(it.getattr(ClassVal(m.cls("prop.vDatetime")), "from_ical"),
+                                ["20200101T120000", tzid], {})
+        except AbsRaise as e:
+            res[tzid] = "!" + e.cls_name
+        except Unsupported as e:
+            raise AnalysisError(f"vDatetime.from_ical('20200101T120000', {tzid!r}) leaves the abstract "
+                                f"interface: {e}")
+    ctx.check(looked.count("Europe/Berlin") >= 1 and looked.count("Unknown/Zone") >= 1
+              and not any(isinstance(v, str) and v.startswith("!") for v in res.values()),
+              "C04/LOOKUP", "vDatetime.from_ical looks the TZID up via tzp.timezone",
+              f"decoding a date-time with a TZID: ids looked up through tzp.timezone = {looked}, results "
+              f"{ {k: repr(v) for k, v in res.items()} }; the id must be resolved through tzp.timezone "
+              f"(which never raises) and an unknown id must not make the decoder fail", vd.loc(),
+              detail="tzp.timezone(timezone)")
 
 
 # ---------------------------------------------------------------------------
